@@ -970,6 +970,7 @@ func c04Direct(c *core.Ctx) {
 }
 
 func c04Run(c *core.Ctx) {
+	processWarmup(c)
 	defer func() { c.Count("interceptor_log_events", c04Events) }()
 	c04Direct(c)
 	c04Bytes(c)
